@@ -6,13 +6,18 @@
 //
 // Case line (blank separated, strings lower-case hex, "-" = empty):
 //
-//	wire <fmt> <ssl> <keepalive> <instances> <tgt> <preload> <resp> <pools> <late> <ncfg> {k v}*ncfg <nitems> {item}*nitems
+//	wire <fmt> <ssl> <keepalive> <instances> <tgt> <preload> <resp> <pools> <late> <pause> <ncfg> {k v}*ncfg <nitems> {item}*nitems
 //	  fmt  = uri | uripost | jsonline | raw         tgt = ip (127.0.0.1:PORT) | name (localhost:PORT)
 //	  preload = provider option `preload` 0|1        resp = <status>:<bytes> what the target answers to every request
 //	  pools = number of pools in the one engine run, each with its own target server on another port of the same
 //	          host (127.0.0.1 / localhost) and the same ammo;  late = 1: the targets are down while the configuration
 //	          is decoded (the gun factories' PreResolveTargetAddr fails, the DNS-caching dialer stays on) and are
 //	          started before Engine.Run
+//	  pause = milliseconds between the requests (rps schedule const 1000/pause per second instead of once(n)); cases with a
+//	          pause run concurrently with the others (own servers and recorder, no decoy hosts)
+//
+//	tr <tls-handshake-ms> <disable-keep-alives> <disable-compression> <max-idle> <max-idle-per-host> <idle-ms> <resp-header-ms> <expect-continue-ms>
+//	  -> the same eight fields read back from the *http.Transport that phttp.NewTransport builds from that TransportConfig
 //	  item = H k v                                   an in-file "[k: v]" line (uri, uripost only)
 //	       | E method uri scheme urlhost tag body nh {k v}*nh
 //	         scheme = - (request-URI only) | h | s (absolute URL http://urlhost<uri> / https://…)
@@ -43,10 +48,12 @@ import (
 	"strconv"
 	"strings"
 	"sync"
+	"sync/atomic"
 	"time"
 
 	"github.com/spf13/afero"
 	"github.com/yandex/pandora/cli"
+	phttp "github.com/yandex/pandora/components/guns/http"
 	phttpimport "github.com/yandex/pandora/components/phttp/import"
 	"github.com/yandex/pandora/core"
 	"github.com/yandex/pandora/core/config"
@@ -82,6 +89,7 @@ type wcase struct {
 	tgt     string
 	pools   int
 	late    bool
+	pause   int
 	preload bool
 	rstatus int
 	rsize   int
@@ -130,6 +138,7 @@ func parseCase(line string) (*wcase, error) {
 		c.rsize, _ = strconv.Atoi(rz)
 		c.pools = num()
 		c.late = next() == "1"
+		c.pause = num()
 		for n := num(); n > 0; n-- {
 			k := str()
 			v := str()
@@ -262,12 +271,15 @@ var (
 	cur   *recorder
 )
 
-func handler(srv string) http.Handler {
+func handler(srv string, own *recorder) http.Handler {
 	return http.HandlerFunc(func(w http.ResponseWriter, r *http.Request) {
 		body, _ := io.ReadAll(r.Body)
-		curMu.Lock()
-		rec := cur
-		curMu.Unlock()
+		rec := own
+		if rec == nil { // the shared decoy: whoever is the current sequential case
+			curMu.Lock()
+			rec = cur
+			curMu.Unlock()
+		}
 		if rec != nil {
 			rec.mu.Lock()
 			rec.recs = append(rec.recs, record{srv: srv, tls: r.TLS != nil, method: r.Method, uri: r.RequestURI, host: r.Host, hdr: r.Header.Clone(), body: body})
@@ -323,7 +335,7 @@ var (
 	fs       = afero.NewMemMapFs()
 	metrics  engine.Metrics
 	decoySrv *httptest.Server
-	caseNo   int
+	caseNo   int64
 )
 
 func setup() {
@@ -335,11 +347,31 @@ func setup() {
 		InstanceStart:  monitoring.NewCounter("hC09_UsersStarted"),
 		InstanceFinish: monitoring.NewCounter("hC09_UsersFinished"),
 	}
-	decoySrv = httptest.NewServer(handler("D"))
+	decoySrv = httptest.NewServer(handler("D", nil))
 }
 
 // runCase: a late-start case whose reserved port was taken by another process in between is repeated on fresh ports.
+func runTransport(line string) string {
+	f := strings.Split(line, " ")
+	if len(f) != 9 {
+		return "badcase"
+	}
+	n := func(i int) int { v, _ := strconv.Atoi(f[i]); return v }
+	ms := func(i int) time.Duration { return time.Duration(n(i)) * time.Millisecond }
+	conf := phttp.TransportConfig{
+		TLSHandshakeTimeout: ms(1), DisableKeepAlives: f[2] == "1", DisableCompression: f[3] == "1",
+		MaxIdleConns: n(4), MaxIdleConnsPerHost: n(5), IdleConnTimeout: ms(6),
+		ResponseHeaderTimeout: ms(7), ExpectContinueTimeout: ms(8),
+	}
+	tr := phttp.NewTransport(conf, (&net.Dialer{}).DialContext, "127.0.0.1:80")
+	return fmt.Sprintf("tr %d %s %s %d %d %d %d %d", tr.TLSHandshakeTimeout.Milliseconds(), vh.B(tr.DisableKeepAlives), vh.B(tr.DisableCompression),
+		tr.MaxIdleConns, tr.MaxIdleConnsPerHost, tr.IdleConnTimeout.Milliseconds(), tr.ResponseHeaderTimeout.Milliseconds(), tr.ExpectContinueTimeout.Milliseconds())
+}
+
 func runCase(line string) string {
+	if strings.HasPrefix(line, "tr ") {
+		return runTransport(line)
+	}
 	out := runCaseOnce(line)
 	for i := 0; i < 5 && out == "run=harness-port-lost"; i++ {
 		out = runCaseOnce(line)
@@ -353,17 +385,18 @@ func runCaseOnce(line string) string {
 		return "badcase"
 	}
 	rec := &recorder{conns: map[string]bool{}, status: c.rstatus, size: c.rsize}
-	curMu.Lock()
-	cur = rec
-	curMu.Unlock()
-	defer func() {
+	if c.pause == 0 {
 		curMu.Lock()
-		cur = nil
+		cur = rec
 		curMu.Unlock()
-	}()
+		defer func() {
+			curMu.Lock()
+			cur = nil
+			curMu.Unlock()
+		}()
+	}
 	decoyAddr := decoySrv.Listener.Addr().String()
-	caseNo++
-	path := fmt.Sprintf("/ammo-%d", caseNo)
+	path := fmt.Sprintf("/ammo-%d", atomic.AddInt64(&caseNo, 1))
 	_ = afero.WriteFile(fs, path, renderFile(c, decoyAddr), 0o644)
 	defer fs.Remove(path)
 	nEntries := 0
@@ -382,7 +415,7 @@ func runCaseOnce(line string) string {
 	servers := make([]*httptest.Server, c.pools)
 	ports := make([]string, c.pools)
 	for k := 0; k < c.pools; k++ {
-		srv := httptest.NewUnstartedServer(handler(fmt.Sprintf("T%d", k)))
+		srv := httptest.NewUnstartedServer(handler(fmt.Sprintf("T%d", k), rec))
 		srv.Config.ConnState = func(cn net.Conn, st http.ConnState) {
 			if st == http.StateNew {
 				rec.mu.Lock()
@@ -432,6 +465,11 @@ func runCaseOnce(line string) string {
 			start(k)
 		}
 	}
+	rps := []any{map[string]any{"type": "once", "times": nEntries}}
+	if c.pause > 0 {
+		rps = []any{map[string]any{"type": "const", "ops": 1000.0 / float64(c.pause),
+			"duration": fmt.Sprintf("%dms", (nEntries+1)*c.pause)}}
+	}
 	var pools []any
 	for k := 0; k < c.pools; k++ {
 		target := "127.0.0.1:" + ports[k]
@@ -451,7 +489,7 @@ func runCaseOnce(line string) string {
 				"disable-keep-alives": !c.ka,
 			},
 			"rps-per-instance": false,
-			"rps":              []any{map[string]any{"type": "once", "times": nEntries}},
+			"rps":              rps,
 			"startup":          []any{map[string]any{"type": "once", "times": c.inst}},
 		})
 	}
@@ -476,7 +514,7 @@ func runCaseOnce(line string) string {
 		conf.Engine.Pools[k].Aggregator = &aggr{}
 	}
 	eng := engine.New(zap.NewNop(), metrics, conf.Engine)
-	ctx, cancel := context.WithTimeout(context.Background(), 20*time.Second)
+	ctx, cancel := context.WithTimeout(context.Background(), 20*time.Second+time.Duration(nEntries*c.pause)*time.Millisecond)
 	runErr := eng.Run(ctx)
 	cancel()
 	eng.Wait()
@@ -537,9 +575,30 @@ func main() {
 	vh.Main(gen, func(cases []string) []string {
 		setup()
 		out := make([]string, len(cases))
-		for i, c := range cases {
-			out[i] = runCase(c)
+		// cases with pauses between the requests take seconds each: they run concurrently with the sequential rest
+		isPaused := func(c string) bool {
+			f := strings.SplitN(c, " ", 12)
+			return len(f) > 10 && f[0] == "wire" && f[10] != "0"
 		}
+		var wg sync.WaitGroup
+		sem := make(chan struct{}, 16)
+		for i, c := range cases {
+			if isPaused(c) {
+				wg.Add(1)
+				go func(i int, c string) {
+					defer wg.Done()
+					sem <- struct{}{}
+					out[i] = runCase(c)
+					<-sem
+				}(i, c)
+			}
+		}
+		for i, c := range cases {
+			if !isPaused(c) {
+				out[i] = runCase(c)
+			}
+		}
+		wg.Wait()
 		return out
 	})
 }
